@@ -125,7 +125,13 @@ def gen_layout(rng, tname=None):
                 n = rng.choice(FILL_LENS) if rng.chance(0.6) else rng.randint(1, 40)
             items.append(("fill", n))
         elif k == 7:
-            items.append(("dataref", rng.below(nlab), 2))
+            r7 = rng.below(4)
+            if r7 == 0:
+                items.append(("selfref", len(items), rng.choice([0, 1])))  # label (own or preceding line) + data word holding it
+            elif r7 == 1:
+                items.append(("pcref",))  # data word holding the current PC
+            else:
+                items.append(("dataref", rng.below(nlab), 2))
         elif k == 8:
             n = rng.choice([1, 1, 3, 2, 5]) if t.align == 2 else rng.randint(1, 4)
             items.append(("bytes", [rng.below(256) for _ in range(n)]))
@@ -145,6 +151,8 @@ def gen_layout(rng, tname=None):
             return t.maxlen[it[1]] + (1 if t.align == 2 else 0)
         if it[0] == "dataref":
             return it[2] + 1
+        if it[0] in ("selfref", "pcref"):
+            return 3
         if it[0] == "bytes":
             return len(it[1])
         return it[1]
@@ -193,6 +201,13 @@ def render(lay):
             L.append("\t%s l%d%s" % (it[1], it[2], sfx))
         elif k == "dataref":
             L.append("\t%s l%d" % ("dc.l" if it[2] == 4 else t.word, it[1]))
+        elif k == "selfref":
+            if it[2]:
+                L.append("s%d:\t%s s%d" % (it[1], t.word, it[1]))
+            else:
+                L.append("s%d:\n\t%s s%d" % (it[1], t.word, it[1]))
+        elif k == "pcref":
+            L.append("\t%s %s" % (t.word, "*" if t.name in ("6502", "6809", "68hc11", "68000") else "$"))
         elif k == "bytes":
             L.append("\t%s %s" % (t.byte, ",".join(str(v) for v in it[1])))
         elif k == "align":
@@ -234,7 +249,7 @@ def decode(lay, img):
     items = list(lay["items"]) + [["dataref", i, 2] for i in range(lay["nlab"])]
     for idx, it in enumerate(items):
         k = it[0]
-        if t.align == 2 and (a & 1) and k in ("ref", "dataref", "label"):
+        if t.align == 2 and (a & 1) and k in ("ref", "dataref", "label", "selfref", "pcref"):
             # automatic padding before word-sized objects (pad byte is emitted as 0 or reserved)
             a += 1
         if k == "label":
@@ -257,6 +272,11 @@ def decode(lay, img):
             w = it[2]
             refs.append((idx, "data word", val(rd(a, w)), it[1], a))
             a += w
+        elif k in ("selfref", "pcref"):
+            # the word must hold its own address (= the label moved behind any padding, resp. the PC)
+            labels[("self", idx)] = a
+            refs.append((idx, "data self-reference" if k == "selfref" else "data PC-reference", val(rd(a, 2)), ("self", idx), a))
+            a += 2
         elif k == "ref":
             mn = it[1]
             forms = t.forms[mn]
@@ -446,7 +466,8 @@ def check_layout(sim, lay, extras, variant, acc):
                 want = labels[lab]
                 if value != want:
                     vio.append(("C01/unresolved/%s/%s" % (lay["target"], what.split()[0]),
-                                "%s at $%x encodes $%x but l%d is at $%x (extra passes %d, %d passes)" % (what, at, value, lab, want, e, npass)))
+                                "%s at $%x encodes $%x but %s is at $%x (extra passes %d, %d passes)"
+                                % (what, at, value, ("l%d" % lab) if isinstance(lab, int) else "its own label / the PC", want, e, npass)))
                     break
             for it in lay["items"]:
                 if it[0] == "ref":
